@@ -406,6 +406,24 @@ func TestVerif_C31(t *testing.T) {
 			}
 			ev("reset_key_bitflips", 1)
 		}
+		// The caller's memory is the caller's: the endpoint hands in a slice of a pooled receive
+		// buffer that holds another datagram a moment later. Same buffer, new contents, must give
+		// the token of the new contents.
+		if len(cid) > 0 {
+			buf := append([]byte(nil), cid...)
+			if ta := g.tokenForConnID(buf); ta != t1 {
+				c.Violation("reset-token-not-deterministic", "key %x cid %x: %x, then %x for a copy of the cid", key, cid, t1, ta)
+			}
+			next := c31bytes(rng, len(cid))
+			copy(buf, next)
+			var g3 statelessResetTokenGenerator
+			g3.init(key)
+			want := g3.tokenForConnID(append([]byte(nil), next...))
+			if tb := g.tokenForConnID(buf); tb != want {
+				c.Violation("reset-token-depends-on-reused-caller-buffer", "key %x: token for cid %x computed in the buffer that held cid %x during the previous call is %x, a fresh generator gives %x (token of the earlier cid: %x)", key, next, cid, tb, want, t1)
+			}
+			ev("reset_tokens_from_reused_buffer", 1)
+		}
 		// the token for cid again, after all that traffic through g
 		if t4 := g.tokenForConnID(cid); t4 != t1 {
 			c.Violation("reset-token-not-deterministic", "key %x cid %x: %x at first, %x after %d other tokens", key, cid, t1, t4, 8*len(cid)+4)
